@@ -85,6 +85,25 @@ claim("C16", "fault_enumeration",
       "and of the FDT is delivered with the original instants. Each object must complete at least once, every completed copy byte-exact with the right location/length.",
       "DESIGN.md section 4 C16")
 
+claim("C17", "exploration",
+      "proptest-generated traffic scenarios that keep objects undecodable; oracle = live heap of the receiver thread (counting allocator) against bounds derived from the configuration, scaling relation N vs 4N, and state counters after every push",
+      "Scenarios: packets of an FDT-only object whose FDT never arrives (cache limit), first block withheld while later blocks complete (limit + 2 blocks, object abandoned), many failing objects (error list length "
+      "after every push), stalled objects / never-completing FDT instance ids / idle sessions followed by real sleeps past 2-8 ms timeouts and cleanup (nb_objects()==0, residual heap must not scale with past "
+      "traffic). Limits 4 KiB..300 KiB. Exploration over scenario parameters; boundedness over unbounded histories is approximated by the N vs 4N relation.",
+      "DESIGN.md section 4 C17")
+claim("C18", "exploration",
+      "differential testing (interleaved vs solo sessions), exhaustive enumeration of all TSI-filter operation sequences to a depth against a reference-count model, and model-based listener traces over generated operation sequences",
+      "(a) 2-4 sessions on distinct (endpoint, TSI) keys incl. equal TSIs on distinct endpoints and endpoints differing only in the source address, merged by a generated schedule: each session's writer trace must "
+      "equal its solo run. (b) ALL sequences of 4 (quick) / 5 (thorough) operations over the 24 filter operations, 8 probes after every operation, filtering toggled: accept iff the reference-count model says so "
+      "(exhaustive to that depth). (c) push / close-session / expire / cleanup / drop sequences with a listener: per key (open close)*, equal to the model, all closed after drop.",
+      "DESIGN.md section 4 C18")
+claim("C19", "exploration",
+      "proptest-generated clock offsets, transit delays and arrival orders; oracle = delivery iff the FDT is unexpired on the estimated sender clock, plus a metamorphic relation (outcome independent of the receiver clock offset when SCT is present)",
+      "One FDT instance (duration 3 s..55 h, SCT present/absent) and one object (5 schemes, in-band/FDT-only OTI, empty/small), receiver clock offset from 0 to +-40 years, transit delays and object arrival "
+      "before/after the FDT biased around the expiry instant (+-2 s excluded), expiry check on/off. Expected outcome computed from the property's estimate formula; an object announced only by an expired "
+      "instance must see no writer callback at all.",
+      "DESIGN.md section 4 C19")
+
 ALL = ["C%02d" % i for i in range(1, 21)]
 
 def main():
